@@ -133,4 +133,25 @@ theorem gen_enfold_populate (cfg : Cfg) (s : EState) (self : V) (batch : Nat) :
   simp only []
   rcases feed_out (retrieveAll (listing cfg s.backend) batch) s.cache with h | h <;> simp only [h]
 
+/-- **`EnfoldCache.retrieve_all(*args, **kwargs)`** called with the batch size as its one positional argument -/
+theorem gen_enfold_retrieve_all (cfg : Cfg) (s : EState) (self : V) (b : Int) :
+    EOutcome (retrieve_all_EnfoldCache self (.seq [.py (.int b)]) (.py (.dict [])) (W0 cfg s)) cfg
+      (Enfold.step cfg s (.retrieveAll b)) := by
+  unfold retrieve_all_EnfoldCache W0 EOutcome Enfold.step
+  simp only [pure_ok, stCallStarM, bindM_ok, List.map_cons, List.map_nil, stCallM, evalArgs, storeOpOf, Store.step, pairM, cache_ne,
+    storage_eq, Bool.false_eq_true, if_false, if_true]
+  by_cases hneg : b < 0
+  · simp [hneg]
+  · simp only [hneg, decide_false, Bool.false_eq_true, if_false, callList, bindM_ok, callLen]
+    cases hp : retrieveAll (listing memCfg s.cache) b.toNat with
+    | nil =>
+      have h0 := len_gt_zero 0
+      simp only [Int.natCast_zero] at h0
+      simp only [List.length_nil, Int.natCast_zero, h0]
+      simp [truth, truthy]
+    | cons x xs =>
+      have h1 := len_gt_zero (xs.length + 1)
+      simp only [List.length_cons, h1]
+      simp [truth, truthy]
+
 end Vakt.GenEquiv
